@@ -129,4 +129,62 @@ theorem excerpt_aligned (text : List Char) (line start stop : Nat) :
       apply List.drop_eq_nil_of_le; simp
     rw [this]; rfl
 
+/-- the number of characters cut from the left is the length of the blank prefix, and what is
+    left is the source line from there on -/
+theorem firstNonWs_spec (text : List Char) (k : Nat) (c : Char)
+    (hk : text[k]? = some c) (hc : isLeadBlank c = false) :
+    firstNonWs text ≤ k ∧ text.dropWhile isLeadBlank = text.drop (firstNonWs text) := by
+  unfold firstNonWs
+  induction text generalizing k with
+  | nil => simp at hk
+  | cons x xs ih =>
+    rw [List.findIdx?_cons]
+    by_cases hx : isLeadBlank x = true
+    · cases k with
+      | zero => simp at hk; subst hk; simp [hx] at hc
+      | succ k =>
+        simp only [List.getElem?_cons_succ] at hk
+        have := ih k hk
+        simp only [hx, Bool.not_true, Bool.false_eq_true, if_false, List.dropWhile_cons, if_true]
+        cases hf : xs.findIdx? (fun c => !isLeadBlank c) with
+        | none =>
+          exfalso
+          have hall := List.findIdx?_eq_none_iff.mp hf c (List.mem_of_getElem? hk)
+          simp [hc] at hall
+        | some i => simp [hf] at this ⊢; exact ⟨by omega, this.2⟩
+    · simp [hx]
+
+/-- a suffix that is trimmed from the right leaves a prefix -/
+theorem trimRight_prefix (p : Char → Bool) (l : List Char) :
+    ∃ r, l = (l.reverse.dropWhile p).reverse ++ r := by
+  refine ⟨(l.reverse.takeWhile p).reverse, ?_⟩
+  rw [← List.reverse_append, List.takeWhile_append_dropWhile, List.reverse_reverse]
+
+/-- **C18 (`marker_under_reported`).** When the reported start column holds a character that is
+    not blank space (every token the lexer produces starts with one), nothing at or after it is cut
+    from the left: cell `i` of the shown line is character `firstNonWs + i` of the source line, and
+    cell `i` of the marker line is a marker exactly when `start ≤ firstNonWs + i ≤ stop`. The
+    markers stand under the characters the diagnostic reports. -/
+theorem marker_under_reported (text : List Char) (start stop : Nat) (c : Char)
+    (hk : text[start]? = some c) (hc : isLeadBlank c = false) (i : Nat) :
+    (i < (trimWs text).length → (trimWs text)[i]? = text[firstNonWs text + i]?) ∧
+    ((formatMarker text (firstNonWs text) start stop)[i]? = some '^' ↔
+      (start ≤ firstNonWs text + i ∧ firstNonWs text + i ≤ stop)) := by
+  obtain ⟨hle, hdrop⟩ := firstNonWs_spec text start c hk hc
+  constructor
+  · intro hi
+    unfold trimWs at hi ⊢
+    obtain ⟨r, hr⟩ := trimRight_prefix isWsChar (text.dropWhile isLeadBlank)
+    have : text[firstNonWs text + i]? = (text.dropWhile isLeadBlank)[i]? := by
+      rw [hdrop, List.getElem?_drop]
+    rw [this]
+    conv => rhs; rw [hr]
+    rw [List.getElem?_append_left hi]
+  · rw [region_marks_columns]
+    omega
+
+/-- non-vacuity: a line indented with a no-break space - the character stays, the marker is under it -/
+example : formatRegion "\u00a0\u00a0addi a0, a0, 1".toList 1 0 0 =
+    ["   |".toList, " 2 | \u00a0\u00a0addi a0, a0, 1".toList, "   | ^".toList] := by decide
+
 end Rva
